@@ -84,6 +84,8 @@ class TableGen:
             "ts": "Datetime",
             "h": "String",
             "i8": "Int8",
+            "i16": "Int16",
+            "u8": "UInt8",
             "i32": "Int32",
             "f32": "Float32",
         }
@@ -104,10 +106,12 @@ class TableGen:
                     v = rng.choice([1, 1, 2, 3])
                 elif c in ("x", "y"):
                     v = rng.choice(INT_POOL) if rng.random() < 0.7 else rng.randint(-1000, 1000)
-                elif c in ("i8",):
-                    v = rng.choice([-5, -1, 0, 1, 2, 7, 100])
+                elif c in ("i8", "i16", "u8"):
+                    v = rng.choice([0, 1, 2, 3, 5] if c == "u8" else [-5, -1, 0, 1, 2, 3])
                 elif c in ("i32",):
-                    v = rng.choice([-70000, -1, 0, 3, 65, 100000])
+                    v = rng.choice([-70, -1, 0, 3, 65, 1000])
+                elif c == "f32":
+                    v = rng.choice([-2.5, -0.75, 0.0, 0.5, 1.25, 3.0])
                 elif c in ("f", "f32"):
                     v = rng.choice(FLOAT_POOL) if rng.random() < 0.7 else rng.randint(-4000, 4000) / 8.0
                 elif c == "b":
@@ -1717,3 +1721,40 @@ def gen_simple(seed):
     p = g.finish([h])
     p["meta"]["simple"] = True
     return p
+
+
+TYPE_WEIGHTS = {"mutate": 5, "mutate_agg": 1.5, "filter": 1.5, "select": 1, "rename": 0.7, "arrange": 1, "group_by": 1, "ungroup": 0.5, "summarize": 1.5, "alias": 0.3}
+
+
+def gen_types(seed):
+    """C12: all column types (sized ints, Float32, bool, string, date, datetime) x verbs that create columns."""
+    g = ProgGen(seed)
+    rng = g.rng
+    cols = ["k", "i8", "i16", "i32", "f32", "f", "b", "s", "d", "ts"]  # (unsigned columns: D1, only in the C13/C17 sweeps)
+    h0 = g.add_table("t", cols=cols, shape=rng.choice(["small_dups", "null_heavy", "single", "empty"]), nrows=rng.choice([0, 1, 5, 9]))
+    h = g.chain(h0, rng.randint(1, 6), TYPE_WEIGHTS, depth=rng.choice([1, 2]))
+    r = rng.random()
+    if r < 0.3 and not g.rr.env[h].group:
+        h1 = g.add_table("u", cols=["k", "i8", "f32", "s"], shape="small_dups", nrows=rng.randint(0, 6))
+        st = g.step_join(h, h1, how=rng.choice(["left", "full", "inner"]))
+        if st is not None and g.try_step(st):
+            h = st["out"]
+    elif r < 0.45 and not g.rr.env[h].group:
+        # union of same-typed columns
+        h1 = g.add_table("u", cols=cols, shape="small_dups", nrows=rng.randint(0, 5))
+        common = [n for n in g.rr.env[h].names() if n in cols and g.rr.env[h].cols[g.rr.env[h].name_to_id()[n]].name0 == n]
+        if common:
+            a = {"in": h, "out": g.new_handle(), "verb": "select", "cols": [cname(x) for x in common]}
+            b = {"in": h1, "out": g.new_handle(), "verb": "select", "cols": [cname(x) for x in reversed(common)]}
+            if g.try_step(a) and g.try_step(b):
+                st = g.step_union(a["out"], b["out"])
+                if g.try_step(st):
+                    h = st["out"]
+    elif r < 0.6:
+        st = {"in": h, "out": g.new_handle(), "verb": "collect", "keep": True}
+        if g.try_step(st):
+            h = st["out"]
+            g.prog["meta"]["skip_backends"] = ["sqlite"]
+    h = g.chain(h, rng.randint(0, 2), TYPE_WEIGHTS, depth=1)
+    probes = [s["out"] for s in g.steps if s["verb"] not in ("group_by",)][-4:] or [h0]
+    return g.finish(probes)
